@@ -126,4 +126,28 @@ theorem mem_unionTriples {qs : List Quad} {t : Triple} :
   · rintro ⟨g, h⟩
     exact ⟨_, h, rfl⟩
 
+theorem graphTriples_cons (q : Quad) (qs : List Quad) (g : GName) :
+    graphTriples (q :: qs) g = if q.graph = g then q.triple :: graphTriples qs g else graphTriples qs g := by
+  unfold graphTriples
+  by_cases h : q.graph = g <;> simp [List.filter_cons, h]
+
+theorem nodup_graphTriples {qs : List Quad} (h : qs.Nodup) (g : GName) : (graphTriples qs g).Nodup := by
+  induction qs with
+  | nil => simp [graphTriples]
+  | cons q rest ih =>
+    rw [List.nodup_cons] at h
+    rw [graphTriples_cons]
+    split
+    · next hg =>
+      rw [List.nodup_cons]
+      refine ⟨?_, ih h.2⟩
+      intro hm
+      have := mem_graphTriples.1 hm
+      apply h.1
+      obtain ⟨a, b, c, d⟩ := q
+      simp only [Quad.graph] at hg
+      subst hg
+      exact this
+    · exact ih h.2
+
 end RV.C10
